@@ -72,7 +72,7 @@ class Event:
 
 
 class Frame:
-    __slots__ = ('func', 'cls', 'env', 'callvals', 'depth')
+    __slots__ = ('func', 'cls', 'env', 'callvals', 'depth', 'gen_consumer')
 
     def __init__(self, func, cls, depth=0):
         self.func = func
@@ -80,11 +80,13 @@ class Frame:
         self.env = {}
         self.callvals = {}
         self.depth = depth
+        self.gen_consumer = None    # the For node consuming this generator
 
     def copy(self):
         f = Frame(self.func, self.cls, self.depth)
         f.env = dict(self.env)
         f.callvals = dict(self.callvals)
+        f.gen_consumer = self.gen_consumer
         return f
 
 
@@ -238,6 +240,15 @@ class Domain:
 
     def resolve_setter(self, state, target, walker):
         return walker.default_resolve_setter(state, target)
+
+    def resolve_generator(self, st, call, walker):
+        """A generator function to run interleaved with the for loop that
+        consumes it (default: private helpers)."""
+        r = walker.resolve_helper(st, call)
+        if r is not None and any(isinstance(x, (ast.Yield, ast.YieldFrom))
+                                 for x in ast.walk(r[0].node)):
+            return r
+        return None
 
     def state_key(self, state):
         """Hashable key of the abstract state (equal keys are merged after a
@@ -403,6 +414,28 @@ class Walker:
             return r[1], None, None
         return None
 
+    def resolve_helper(self, st, call, skip=()):
+        """Private helper extracted from the analysed code: self._m(...),
+        Class._m(...), or a module-level _f(...) of the package."""
+        r = self.default_resolve(st, call)
+        if r is None:
+            r = self.resolve_module_func(st, call)
+        if r is None and isinstance(call.func, ast.Attribute) and isinstance(
+                call.func.value, ast.Name):
+            c = self.p.lookup(st.frame.func.module, call.func.value.id)
+            if c and c[0] == 'class':
+                m = self.p.resolve_method(c[1], call.func.attr)
+                if m is not None and any(dotted(d) == 'staticmethod'
+                                         for d in m.node.decorator_list):
+                    r = (m, c[1], None)
+        if r is None:
+            return None
+        name = r[0].name
+        if not name.startswith('_') or name.startswith('__') \
+                or name in skip:
+            return None
+        return r
+
     def default_resolve(self, st, call):
         f = call.func
         fr = st.frame
@@ -528,6 +561,23 @@ class Walker:
                    extra={'in_comp': in_comp, 'keywords': {
                        k.arg: self.canon(st, k.value) for k in call.keywords}})
         out = []
+        cn = sym.node
+        if res is None and isinstance(cn, ast.Call) and dotted(cn.func) in (
+                'setattr', 'object.__setattr__') and len(cn.args) == 3 \
+                and isinstance(cn.args[1], ast.Constant) and isinstance(
+                    cn.args[1].value, str) and not in_comp:
+            tnode = ast.Attribute(cn.args[0], cn.args[1].value, ast.Load())
+            ast.copy_location(tnode, call)
+            ast.fix_missing_locations(tnode)
+            sev = Event('store', call, sym=SymVal(cn.args[2], sym.stamp),
+                        target=SymVal(tnode, sym.stamp),
+                        extra={'aug': None, 'raw_target': tnode,
+                               'via': 'setattr'})
+            for ex in self.emit(st, sev):
+                if ex.kind == 'fall':
+                    self._bump_target(ex.state, tnode)
+                out.append(ex)
+            return out
         for ex in self.emit(st, ev):
             if res is None and ex.kind == 'fall':
                 self.note_mutation(ex.state, sym.node)
@@ -575,6 +625,30 @@ class Walker:
         return None
 
     def inline(self, call, st, res, setter_value=None):
+        fr = self._bind_frame(call, st, res, setter_value)
+        func = res[0]
+        st.frames.append(fr)
+        st.trace.append(Event('enter', call, func=func, depth=fr.depth))
+        out = []
+        for ex in self.block(strip_docstring(func.node.body), st):
+            s = ex.state
+            s.trace.append(Event('leave', call, func=func, depth=fr.depth,
+                                 extra=ex.kind))
+            s.frames.pop()
+            if ex.kind == 'raise':
+                out.append(Exit('raise', s, ex.payload, ex.node))
+            elif ex.kind in ('fall', 'return'):
+                rv = ex.payload if (ex.kind == 'return'
+                                    and ex.payload is not None) \
+                    else SymVal(ast.Constant(None))
+                if call is not None:
+                    s.frame.callvals[_pos(call)] = rv
+                out.append(Exit('fall', s))
+            else:
+                raise AnalysisError(f'{func.where}: stray {ex.kind}')
+        return out
+
+    def _bind_frame(self, call, st, res, setter_value=None):
         func, cls, selfsym = res
         caller = st.frame
         fr = Frame(func, cls, caller.depth + 1)
@@ -625,26 +699,7 @@ class Walker:
                 fr.env[kw.arg] = self.fresh(st, kw.arg, tag='param')
         if a.kwarg:
             fr.env[a.kwarg.arg] = self.fresh(st, a.kwarg.arg, tag='param')
-        st.frames.append(fr)
-        st.trace.append(Event('enter', call, func=func, depth=fr.depth))
-        out = []
-        for ex in self.block(strip_docstring(func.node.body), st):
-            s = ex.state
-            s.trace.append(Event('leave', call, func=func, depth=fr.depth,
-                                 extra=ex.kind))
-            s.frames.pop()
-            if ex.kind == 'raise':
-                out.append(Exit('raise', s, ex.payload, ex.node))
-            elif ex.kind in ('fall', 'return'):
-                rv = ex.payload if (ex.kind == 'return'
-                                    and ex.payload is not None) \
-                    else SymVal(ast.Constant(None))
-                if call is not None:
-                    s.frame.callvals[_pos(call)] = rv
-                out.append(Exit('fall', s))
-            else:
-                raise AnalysisError(f'{func.where}: stray {ex.kind}')
-        return out
+        return fr
 
     # ------------------------------------------------------------------
     def block(self, stmts, st):
@@ -673,17 +728,56 @@ class Walker:
                 yield ex
 
     def stmt(self, n, st):
+        if isinstance(n, ast.Expr) and isinstance(n.value, ast.YieldFrom) \
+                and st.frame.gen_consumer is not None:
+            # yield from X  ==  for v in X: yield v
+            tmp = f'_yf{getattr(n, "lineno", 0)}'
+            loop = ast.For(ast.Name(tmp, ast.Store()), n.value.value,
+                           [ast.Expr(ast.Yield(ast.Name(tmp, ast.Load())))],
+                           [])
+            ast.copy_location(loop, n)
+            ast.fix_missing_locations(loop)
+            yield from self.for_(loop, st)
+            return
+        if isinstance(n, ast.Expr) and isinstance(n.value, ast.Yield) \
+                and st.frame.gen_consumer is not None:
+            for ex in self.eval_expr(n.value.value, st):
+                if ex.kind != 'fall':
+                    yield ex
+                else:
+                    yield from self._gen_yield(n, ex.state)
+            return
         if isinstance(n, ast.Expr):
             if isinstance(n.value, ast.Constant):
                 yield Exit('fall', st)
                 return
             yield from self.eval_expr(n.value, st)
+        elif isinstance(n, ast.Assign) and isinstance(n.value, ast.IfExp) \
+                and len(n.targets) == 1:
+            t = n.value
+            a = ast.Assign(n.targets, t.body)
+            b = ast.Assign(n.targets, t.orelse)
+            ast.copy_location(a, n)
+            ast.copy_location(b, n)
+            iff = ast.If(t.test, [a], [b])
+            ast.copy_location(iff, n)
+            ast.fix_missing_locations(iff)
+            yield from self.stmt(iff, st)
         elif isinstance(n, (ast.Assign, ast.AnnAssign, ast.AugAssign)):
             yield from self.assign(n, st)
         elif isinstance(n, ast.Delete):
             for ex in self._seq([(lambda s, t=t: self.delete(t, s))
                                  for t in n.targets], st):
                 yield ex
+        elif isinstance(n, ast.Return) and isinstance(n.value, ast.IfExp):
+            t = n.value
+            a = ast.Return(t.body)
+            b = ast.Return(t.orelse)
+            ast.copy_location(a, n)
+            ast.copy_location(b, n)
+            iff = ast.If(t.test, [a], [b])
+            ast.copy_location(iff, n)
+            yield from self.stmt(iff, st)
         elif isinstance(n, ast.Return):
             for ex in self.eval_expr(n.value, st):
                 if ex.kind != 'fall':
@@ -1099,6 +1193,12 @@ class Walker:
                     yield ex
 
     def for_(self, n, st):
+        if isinstance(n.iter, ast.Call) and st.frame.depth \
+                < self.d.inline_depth:
+            res = self.d.resolve_generator(st, n.iter, self)
+            if res is not None:
+                yield from self._for_gen(n, st, res)
+                return
         for ex in self.eval_expr(n.iter, st):
             if ex.kind != 'fall':
                 yield ex
@@ -1111,6 +1211,78 @@ class Walker:
                     continue
                 counts = list(self.d.for_counts(e2.state, n, itersym))
                 yield from self._for_iter(n, e2.state, itersym, 0, counts)
+
+    def _for_gen(self, n, st, res):
+        """`for x in helper(..)` with helper an in-repo generator: the
+        helper's body runs interleaved with the loop body (each `yield v`
+        binds the target to v and runs the body)."""
+        call = n.iter
+        states = [st]
+        # evaluate the arguments of the call first
+        exits = self.eval_expr(ast.Tuple(list(call.args) + [
+            k.value for k in call.keywords], ast.Load()), st)
+        for ex in exits:
+            if ex.kind != 'fall':
+                yield ex
+                continue
+            s = ex.state
+            itersym = self.canon(s, call)
+            fr = self._bind_frame(call, s, res)
+            fr.gen_consumer = n
+            for e0 in self.emit(s, Event('for', n, sym=itersym,
+                                         extra={'generator': res[0]})):
+                if e0.kind != 'fall':
+                    yield e0
+                    continue
+                s0 = e0.state
+                s0.frames.append(fr)
+                for e1 in self.block(strip_docstring(res[0].node.body), s0):
+                    s1 = e1.state
+                    if e1.kind in ('fall', 'return'):
+                        s1.frames.pop()
+                        for e2 in self.emit(s1, Event('for-end', n,
+                                                      sym=itersym)):
+                            if e2.kind == 'fall':
+                                yield from self.block(n.orelse, e2.state)
+                            else:
+                                yield e2
+                    elif e1.kind == 'raise':
+                        s1.frames.pop()
+                        yield Exit('raise', s1, e1.payload, e1.node)
+                    elif e1.kind == 'genbreak':
+                        yield Exit('fall', s1)
+                    elif e1.kind == 'genexit':
+                        yield e1.payload        # return / raise of the body
+                    else:
+                        raise AnalysisError(f'stray {e1.kind} in generator')
+
+    def _gen_yield(self, ystmt, st):
+        """A `yield v` executed in an interleaved generator frame."""
+        n = st.frame.gen_consumer
+        y = ystmt.value
+        vsym = self.canon(st, y.value) if y.value is not None else SymVal(
+            ast.Constant(None))
+        callee = st.frames.pop()
+        for ex in self.store(n.target, vsym, st, n):
+            if ex.kind != 'fall':
+                ex.state.frames.append(callee.copy())
+                yield ex
+                continue
+            for e2 in self.emit(ex.state, Event('for-item', n, sym=vsym,
+                                                target=vsym,
+                                                extra={'generator': True})):
+                if e2.kind != 'fall':
+                    e2.state.frames.append(callee.copy())
+                    yield e2
+                    continue
+                for e3 in self.block(n.body, e2.state):
+                    if e3.kind in ('fall', 'continue'):
+                        e3.state.frames.append(callee.copy())
+                        yield Exit('fall', e3.state)
+                    elif e3.kind == 'break':
+                        yield Exit('genbreak', e3.state)
+                    else:
+                        yield Exit('genexit', e3.state, e3)
 
     def _for_iter(self, n, st, itersym, i, counts):
         mx = max(counts) if counts else 0
